@@ -232,6 +232,25 @@ fn check_matrix(target: Target, kind: Kind, text: &[u8], suffix: &str, value: u6
     Ok(())
 }
 
+/// Fuzz decoding: first byte selects f32 / f64 / bool, the rest is a decimal
+/// literal that both the reference reader and std accept.
+pub fn decode_text(data: &[u8]) -> Option<Case> {
+    let (k, rest) = data.split_first()?;
+    let lit = std::str::from_utf8(rest).ok()?;
+    // only what the lexer itself hands to a conversion as one decimal element
+    if crate::conv::lex_single(rest) != Some(Token::DecimalNumericProgramData(rest)) {
+        return None;
+    }
+    if lit.len() > 400 || dec::parse(rest).is_none() || lit.parse::<f64>().is_err() {
+        return None;
+    }
+    Some(match k % 3 {
+        0 => Case::Float { single: true, lit: lit.to_string(), halfway: false },
+        1 => Case::Float { single: false, lit: lit.to_string(), halfway: false },
+        _ => Case::BoolLit { lit: lit.to_string() },
+    })
+}
+
 pub fn check(case: &Case, obs: &Obs) -> CheckResult {
     match case {
         Case::Float { single, lit, halfway } => check_float(*single, lit, *halfway, obs, case),
@@ -446,5 +465,8 @@ fn run(e: &Engine) {
         if (half as f64) < 0.2 * floats as f64 {
             e.harness_error(format!("generator unhealthy: halfway literals {half} of {floats} float literals"));
         }
+    }
+    if e.tier == crate::engine::Tier::Thorough {
+        e.fuzz("fuzz-c08_dec", "c08_dec", 64_000_000, |b| decode_text(b).unwrap_or(Case::BoolLit { lit: "0".into() }), check);
     }
 }
